@@ -1,0 +1,35 @@
+//go:build verif
+
+package table
+
+import (
+	"errors"
+	"sync"
+)
+
+var (
+	verifC02FailOpen     sync.Map // file name -> struct{}: the next open of this table fails once
+	verifC02FaultsOnce   sync.Once
+	errVerifC02OpenFault = errors.New("verif: injected table open failure")
+)
+
+// VerifC02FailOpenOnce makes the next attempt of the reader cache to open table fileName
+// (cache miss → newMMapStoreReaderFunc) fail once, like a transient EMFILE / ENOMEM / I/O error.
+// The seam wrapper is installed on first use and passes every other open through.
+func VerifC02FailOpenOnce(fileName string) {
+	verifC02FaultsOnce.Do(func() {
+		old := newMMapStoreReaderFunc
+		newMMapStoreReaderFunc = func(path, fileName string) (Reader, error) {
+			if _, ok := verifC02FailOpen.LoadAndDelete(fileName); ok {
+				return nil, errVerifC02OpenFault
+			}
+			return old(path, fileName)
+		}
+	})
+	verifC02FailOpen.Store(fileName, struct{}{})
+}
+
+// VerifC02ClearOpenFaults forgets faults that were armed but not consumed.
+func VerifC02ClearOpenFaults() {
+	verifC02FailOpen.Range(func(k, _ interface{}) bool { verifC02FailOpen.Delete(k); return true })
+}
